@@ -188,6 +188,41 @@ def excel_date_lengths():
     return problems
 
 
+def characters_at_the_edges():
+    """
+    'A non-empty cell is rejected when it contains any character outside the data format's allowed-characters range,
+    whatever the type and rule would otherwise say' -- for characters that text tools treat specially at the start or the end
+    of a text (line feed, carriage return, tab, other line and paragraph separators), at the first, a middle and the last
+    position, alone and doubled, for every type and format.
+    """
+    from cutplace import data, errors, fields
+    problems = []
+    rules = {"Text": "", "Integer": "", "Decimal": "", "Choice": "abc, x", "Constant": "abc", "DateTime": "YYYY", "Pattern": "*", "RegEx": "(?s).*"}
+    for fmt in ("delimited", "fixed", "excel", "ods"):
+        for allowed in ("32...126", "' '...'~'", "32...126, 160...255"):
+            data_format = data.DataFormat(fmt)
+            data_format.set_property(data.KEY_ALLOWED_CHARACTERS, allowed)
+            data_format.validate()
+            for special in "\n\r\t\x0b\x0c\x1c\x1d\x1e\x85\u2028\u2029\x00\x7f":
+                for cell in ("abc" + special, special, "abc" + special + special, special + "abc", "ab" + special + "c", special + "abc" + special):
+                    for type_name, rule in sorted(rules.items()):
+                        length = str(len(cell)) if fmt == "fixed" else ""
+                        if type_name == "Constant" and fmt == "fixed":
+                            continue  # (the declared width must be the constant's)
+                        field = getattr(fields, type_name + "FieldFormat")("f", False, length, rule, data_format)
+                        try:
+                            field.validated(cell)
+                        except errors.FieldValueError:
+                            continue
+                        except Exception as error:  # noqa
+                            problems.append("%s field (format %s, allowed characters %s), cell %r: %s: %s" % (
+                                type_name, fmt, allowed, cell, type(error).__name__, error))
+                            continue
+                        problems.append("%s field (format %s, allowed characters %s, rule %r), cell %r holds the character %r outside the "
+                                        "allowed characters but is accepted" % (type_name, fmt, allowed, rule, cell, special))
+    return problems
+
+
 def _job(vec):
     """All eight types against one behaviour; returns list of problems."""
     problems = []
@@ -286,6 +321,12 @@ def run(tier, report):
     for problem in excel_date_lengths():
         report.replayed += 1
         report.violation("c03", {"excel_date_length": problem}, None, None, problem)
+    shown = set()
+    for problem in characters_at_the_edges():
+        if problem.split(",")[0] not in shown:
+            shown.add(problem.split(",")[0])
+            report.violation("c03", {"edge_character": problem}, "reject", "accept", problem)
+    report.replayed += 4 * 3 * 13 * 6 * 8
     if not report.violations:
         for vec in vectors:
             if vec["outcome"] == ["reject", "length"] and not vec["undecided"]:
